@@ -63,26 +63,33 @@ Definition exp0_of (cf : cconf) (now : Z) : option Z :=
 Definition blocked_of (cf : cconf) (s : csys) (name : string) (check : bool) : bool :=
   check && cf_check cf && negb (mem_str name (cs_created s)).
 
+(** Open of an entry that holds an instance: the caller is counted *)
 Lemma copen_hit cf s name check now e i :
   alookup name (cs_cache s) = Some e -> ce_inst e = Some i ->
   copen cf s name check now =
-  (set_cache s (ainsert name (mkEntry (ce_expires e) true (Some i)) (cs_cache s)), Ok i).
+  (set_cache s (ainsert name (mkEntry (ce_expires e) (S (ce_pending e)) (Some i)) (cs_cache s)), Ok i).
 Proof.
   intros He Hi. unfold copen, expire. rewrite He. cbn. rewrite Hi. reflexivity.
 Qed.
 
+(** Open without an entry: a new entry whose first user is the caller; it
+    stays in the map (if entries are cached at all) whether the load succeeds
+    or not *)
 Lemma copen_absent cf s name check now :
   alookup name (cs_cache s) = None ->
   copen cf s name check now =
   if blocked_of cf s name check then
-    (set_cache s (aremove name (if cached_of cf then ainsert name (mkEntry (exp0_of cf now) false None) (cs_cache s)
-                                else cs_cache s)), Err "notfound")
+    ((if cached_of cf
+      then set_cache (set_cache s (ainsert name (mkEntry (exp0_of cf now) 1 None) (cs_cache s)))
+                     (ainsert name (mkEntry (exp0_of cf now) 1 None)
+                              (ainsert name (mkEntry (exp0_of cf now) 1 None) (cs_cache s)))
+      else s), Err "notfound")
   else
     let i := cs_next s in
     let exp := match alookup name (cs_cache_ttl s) with Some ms => Some (now + ms) | None => exp0_of cf now end in
     (mkCsys (if cached_of cf
-             then ainsert name (mkEntry exp false (Some i))
-                          (ainsert name (mkEntry (exp0_of cf now) false None) (cs_cache s))
+             then ainsert name (mkEntry exp 1 (Some i))
+                          (ainsert name (mkEntry (exp0_of cf now) 1 None) (cs_cache s))
              else cs_cache s)
             (S i) ((name, i) :: cs_loads s) (cs_ver s) ((i, ver_of s name) :: cs_mem s)
             (cs_created s) (cs_cache_ttl s), Ok i).
@@ -98,17 +105,27 @@ Qed.
 Definition live_of (e : centry) (now : Z) : bool :=
   match ce_expires e with None => true | Some t => now <? t end.
 
+Definition loaded_of (e : centry) : bool :=
+  match ce_inst e with Some _ => true | None => false end.
+
+(** Release keeps the entry while somebody else uses it, or if it holds an instance whose time is not up *)
+Definition keep_of (e : centry) (now : Z) : bool :=
+  (0 <? Nat.pred (ce_pending e))%nat || (loaded_of e && live_of e now).
+
 Lemma crelease_eq s name now :
   crelease s name now =
   match alookup name (cs_cache s) with
   | None => s
-  | Some e => if live_of e now
-              then set_cache s (ainsert name (mkEntry (ce_expires e) false (ce_inst e)) (cs_cache s))
+  | Some e => if keep_of e now
+              then set_cache s (ainsert name (mkEntry (ce_expires e) (Nat.pred (ce_pending e)) (ce_inst e)) (cs_cache s))
               else set_cache s (aremove name (cs_cache s))
   end.
 Proof.
-  unfold crelease, expire, live_of. destruct (alookup name (cs_cache s)) as [e|]; [|reflexivity].
-  cbn. destruct (ce_expires e) as [t|]; [destruct (now <? t)|]; reflexivity.
+  unfold crelease, expire, keep_of, loaded_of, live_of. destruct (alookup name (cs_cache s)) as [e|]; [|reflexivity].
+  cbn [ce_pending ce_inst ce_expires].
+  destruct ((0 <? Nat.pred (ce_pending e))%nat ||
+            (match ce_inst e with Some _ => true | None => false end &&
+             match ce_expires e with None => true | Some t => now <? t end)); reflexivity.
 Qed.
 
 Lemma crelease_fields s name now :
@@ -116,20 +133,20 @@ Lemma crelease_fields s name now :
   cs_ver (crelease s name now) = cs_ver s /\ cs_mem (crelease s name now) = cs_mem s /\
   cs_created (crelease s name now) = cs_created s /\ cs_cache_ttl (crelease s name now) = cs_cache_ttl s.
 Proof.
-  rewrite crelease_eq. destruct (alookup name (cs_cache s)) as [e|]; [destruct (live_of e now)|]; cbn; auto 10.
+  rewrite crelease_eq. destruct (alookup name (cs_cache s)) as [e|]; [destruct (keep_of e now)|]; cbn; auto 10.
 Qed.
 
 Lemma crelease_lookup s name now n :
   alookup n (cs_cache (crelease s name now)) =
   if String.eqb n name then
     match alookup name (cs_cache s) with
-    | Some e => if live_of e now then Some (mkEntry (ce_expires e) false (ce_inst e)) else None
+    | Some e => if keep_of e now then Some (mkEntry (ce_expires e) (Nat.pred (ce_pending e)) (ce_inst e)) else None
     | None => None
     end
   else alookup n (cs_cache s).
 Proof.
   rewrite crelease_eq. destruct (alookup name (cs_cache s)) as [e|] eqn:He.
-  - destruct (live_of e now); cbn [cs_cache set_cache].
+  - destruct (keep_of e now); cbn [cs_cache set_cache].
     + rewrite alookup_ainsert. reflexivity.
     + rewrite alookup_aremove. reflexivity.
   - destruct (String.eqb_spec n name) as [->|Hne]; [exact He|reflexivity].
@@ -142,9 +159,13 @@ Lemma crelease_lookup_some s name now n e' :
 Proof.
   rewrite crelease_lookup. destruct (String.eqb_spec n name) as [->|Hne].
   - destruct (alookup name (cs_cache s)) as [e|]; [|discriminate].
-    destruct (live_of e now); [|discriminate]. intros [= <-]. exists e. auto.
+    destruct (keep_of e now); [|discriminate]. intros [= <-]. exists e. auto.
   - intros H. exists e'. auto.
 Qed.
+
+(** the last user's Release: the entry stays iff it holds an instance whose time is not up *)
+Lemma keep_of_last e now : ce_pending e = 1%nat -> keep_of e now = loaded_of e && live_of e now.
+Proof. intros H. unfold keep_of. rewrite H. reflexivity. Qed.
 
 (** the use of the instance between Open and Release *)
 Definition cuse (s1 : csys) (q : creq) (i : nat) : csys :=
@@ -197,25 +218,50 @@ Qed.
 
 (** ** The invariant *)
 
+(** between requests: every entry holds an instance and nobody uses it *)
 Record Inv (s : csys) : Prop := mkInv {
   inv_loaded : forall n e, alookup n (cs_cache s) = Some e -> exists i, ce_inst e = Some i;
+  inv_idle : forall n e, alookup n (cs_cache s) = Some e -> ce_pending e = 0%nat;
   inv_logged : forall n e i, alookup n (cs_cache s) = Some e -> ce_inst e = Some i -> In (n, i) (cs_loads s);
   inv_fresh : forall n i, In (n, i) (cs_loads s) -> (i < cs_next s)%nat;
   inv_owner : forall n1 n2 i, In (n1, i) (cs_loads s) -> In (n2, i) (cs_loads s) -> n1 = n2;
   inv_sync : forall n e i, alookup n (cs_cache s) = Some e -> ce_inst e = Some i -> mem_of s i = ver_of s n;
 }.
 
+(** inside a request for [name] (between its Open and its Release): the
+    entry of [name], if there is one, has exactly one user and may hold no
+    instance (the Open failed) *)
+Record MInv (name : string) (s : csys) : Prop := mkMInv {
+  m_loaded : forall n e, alookup n (cs_cache s) = Some e -> n <> name -> exists i, ce_inst e = Some i;
+  m_idle : forall n e, alookup n (cs_cache s) = Some e -> n <> name -> ce_pending e = 0%nat;
+  m_one : forall e, alookup name (cs_cache s) = Some e -> ce_pending e = 1%nat;
+  m_logged : forall n e i, alookup n (cs_cache s) = Some e -> ce_inst e = Some i -> In (n, i) (cs_loads s);
+  m_fresh : forall n i, In (n, i) (cs_loads s) -> (i < cs_next s)%nat;
+  m_owner : forall n1 n2 i, In (n1, i) (cs_loads s) -> In (n2, i) (cs_loads s) -> n1 = n2;
+  m_sync : forall n e i, alookup n (cs_cache s) = Some e -> ce_inst e = Some i -> mem_of s i = ver_of s n;
+}.
+
 Lemma Inv0 : Inv csys0.
 Proof. split; cbn; intros; try discriminate; contradiction. Qed.
 
-Lemma Inv_release s name now : Inv s -> Inv (crelease s name now).
+Lemma Inv_release s name now : MInv name s -> Inv (crelease s name now).
 Proof.
-  intros [H1 H2 H3 H4 H5].
+  intros [H1 H0 Hone H2 H3 H4 H5].
   destruct (crelease_fields s name now) as (Fn & Fl & Fv & Fm & _ & _).
   assert (Hver : forall n, ver_of (crelease s name now) n = ver_of s n) by (intros; unfold ver_of; rewrite Fv; reflexivity).
   assert (Hmem : forall j, mem_of (crelease s name now) j = mem_of s j) by (intros; unfold mem_of; rewrite Fm; reflexivity).
+  assert (Hl : forall n e', alookup n (cs_cache (crelease s name now)) = Some e' ->
+               ce_pending e' = 0%nat /\ exists i, ce_inst e' = Some i).
+  { intros n e'. rewrite crelease_lookup. destruct (String.eqb_spec n name) as [->|Hne].
+    - destruct (alookup name (cs_cache s)) as [e|] eqn:He; [|discriminate].
+      rewrite (keep_of_last e now (Hone _ eq_refl)).
+      destruct (loaded_of e) eqn:Hld; [|discriminate]. destruct (live_of e now); [|discriminate].
+      intros [= <-]. cbn [ce_pending ce_inst]. rewrite (Hone _ eq_refl). split; [reflexivity|].
+      unfold loaded_of in Hld. destruct (ce_inst e) as [i|]; [eauto|discriminate].
+    - intros He'. split; eauto. }
   split.
-  - intros n e' He'. apply crelease_lookup_some in He' as (e & He & Hi & _). rewrite Hi. eauto.
+  - intros n e' He'. apply Hl in He'. tauto.
+  - intros n e' He'. apply Hl in He'. tauto.
   - intros n e' i He' Hi'. apply crelease_lookup_some in He' as (e & He & Hi & _). rewrite Fl. rewrite Hi in Hi'. eauto.
   - intros n i. rewrite Fl, Fn. apply H3.
   - intros n1 n2 i. rewrite Fl. apply H4.
@@ -223,32 +269,36 @@ Proof.
     rewrite Hver, Hmem. eauto.
 Qed.
 
-(** after a successful Open: the invariant, and the served instance is the
-    logged, current, cached one *)
+(** after Open: the mid-request invariant, and after a successful Open the
+    served instance is the logged, current, cached one *)
 Lemma Inv_open cf s name check now :
   Inv s ->
-  Inv (fst (copen cf s name check now)) /\
+  MInv name (fst (copen cf s name check now)) /\
   forall i, snd (copen cf s name check now) = Ok i ->
     In (name, i) (cs_loads (fst (copen cf s name check now))) /\
     mem_of (fst (copen cf s name check now)) i = ver_of (fst (copen cf s name check now)) name /\
     (forall e, alookup name (cs_cache (fst (copen cf s name check now))) = Some e -> ce_inst e = Some i).
 Proof.
-  intros [H1 H2 H3 H4 H5].
+  intros [H1 H0 H2 H3 H4 H5].
   destruct (alookup name (cs_cache s)) as [e|] eqn:He.
   - destruct (H1 _ _ He) as [i Hi]. rewrite (copen_hit cf s name check now e i He Hi). cbn [fst snd].
-    assert (Hl : forall n e', alookup n (cs_cache (set_cache s (ainsert name (mkEntry (ce_expires e) true (Some i)) (cs_cache s)))) = Some e' ->
-                 exists e0, alookup n (cs_cache s) = Some e0 /\ ce_inst e' = ce_inst e0).
+    assert (Hl : forall n e', alookup n (cs_cache (set_cache s (ainsert name (mkEntry (ce_expires e) (S (ce_pending e)) (Some i)) (cs_cache s)))) = Some e' ->
+                 (n = name /\ e' = mkEntry (ce_expires e) (S (ce_pending e)) (Some i)) \/
+                 (n <> name /\ alookup n (cs_cache s) = Some e')).
     { intros n e'. cbn [cs_cache set_cache]. rewrite alookup_ainsert.
       destruct (String.eqb_spec n name) as [->|Hne].
-      - intros [= <-]. exists e. cbn. auto.
-      - intros H. exists e'. auto. }
+      - intros [= <-]. left. auto.
+      - intros H. right. auto. }
     split; [split|].
-    + intros n e' He'. apply Hl in He' as (e0 & He0 & Hi0). rewrite Hi0. eauto.
-    + intros n e' i' He' Hi'. apply Hl in He' as (e0 & He0 & Hi0). rewrite Hi0 in Hi'. cbn [cs_loads set_cache]. eauto.
+    + intros n e' He' Hne. apply Hl in He' as [[-> _]|[_ He']]; [congruence|eauto].
+    + intros n e' He' Hne. apply Hl in He' as [[-> _]|[_ He']]; [congruence|eauto].
+    + intros e' He'. apply Hl in He' as [[_ ->]|[Hne _]]; [|congruence]. cbn [ce_pending]. rewrite (H0 _ _ He). reflexivity.
+    + intros n e' i' He' Hi'. cbn [cs_loads set_cache]. apply Hl in He' as [[-> ->]|[_ He']]; [|eauto].
+      cbn [ce_inst] in Hi'. injection Hi' as <-. eauto.
     + exact H3.
     + exact H4.
-    + intros n e' i' He' Hi'. apply Hl in He' as (e0 & He0 & Hi0). rewrite Hi0 in Hi'.
-      change (mem_of s i' = ver_of s n). eauto.
+    + intros n e' i' He' Hi'. change (mem_of s i' = ver_of s n). apply Hl in He' as [[-> ->]|[_ He']]; [|eauto].
+      cbn [ce_inst] in Hi'. injection Hi' as <-. eauto.
     + intros i' [= <-]. split; [|split].
       * cbn [cs_loads set_cache]. eauto.
       * change (mem_of s i = ver_of s name). eauto.
@@ -256,21 +306,33 @@ Proof.
   - rewrite (copen_absent cf s name check now He).
     destruct (blocked_of cf s name check).
     + cbn [fst snd]. split; [|intros i; discriminate].
-      assert (Hl : forall n e', alookup n (aremove name (if cached_of cf then ainsert name (mkEntry (exp0_of cf now) false None) (cs_cache s) else cs_cache s)) = Some e' ->
-                   alookup n (cs_cache s) = Some e').
-      { intros n e'. rewrite alookup_aremove. destruct (String.eqb_spec n name) as [->|Hne]; [discriminate|].
-        destruct (cached_of cf); [rewrite alookup_ainsert_other by exact Hne|]; auto. }
-      split; cbn [cs_cache cs_loads cs_next set_cache].
-      * intros n e' He'. apply Hl in He'. eauto.
-      * intros n e' i He'. apply Hl in He'. eauto.
+      set (E := mkEntry (exp0_of cf now) 1 None).
+      set (s1 := if cached_of cf then _ else s).
+      assert (Hf : cs_loads s1 = cs_loads s /\ cs_next s1 = cs_next s /\ cs_ver s1 = cs_ver s /\ cs_mem s1 = cs_mem s).
+      { subst s1. destruct (cached_of cf); cbn; auto. }
+      destruct Hf as (Fl & Fn & Fv & Fm).
+      assert (Hl : forall n e', alookup n (cs_cache s1) = Some e' ->
+                   (n = name /\ e' = E) \/ (n <> name /\ alookup n (cs_cache s) = Some e')).
+      { intros n e'. subst s1. destruct (cached_of cf); cbn [cs_cache set_cache].
+        - rewrite !alookup_ainsert. destruct (String.eqb_spec n name) as [->|Hne].
+          + intros [= <-]. left. auto.
+          + intros H. right. auto.
+        - destruct (String.eqb_spec n name) as [->|Hne]; [rewrite He; discriminate|]. intros H. right. auto. }
+      assert (Hver : forall n, ver_of s1 n = ver_of s n) by (intros; unfold ver_of; rewrite Fv; reflexivity).
+      assert (Hmem : forall j, mem_of s1 j = mem_of s j) by (intros; unfold mem_of; rewrite Fm; reflexivity).
+      split; rewrite ?Fl, ?Fn.
+      * intros n e' He' Hne. apply Hl in He' as [[-> _]|[_ He']]; [congruence|eauto].
+      * intros n e' He' Hne. apply Hl in He' as [[-> _]|[_ He']]; [congruence|eauto].
+      * intros e' He'. apply Hl in He' as [[_ ->]|[Hne _]]; [reflexivity|congruence].
+      * intros n e' i He' Hi'. apply Hl in He' as [[_ ->]|[_ He']]; [discriminate|eauto].
       * exact H3.
       * exact H4.
-      * intros n e' i He' Hi'. apply Hl in He'. change (mem_of s i = ver_of s n). eauto.
+      * intros n e' i He' Hi'. rewrite Hver, Hmem. apply Hl in He' as [[_ ->]|[_ He']]; [discriminate|eauto].
     + cbv zeta. cbn [fst snd].
       set (exp := match alookup name (cs_cache_ttl s) with Some ms => Some (now + ms) | None => exp0_of cf now end).
       set (c' := if cached_of cf then _ else _).
       assert (Hl : forall n e', alookup n c' = Some e' ->
-                   (n = name /\ ce_inst e' = Some (cs_next s)) \/ (n <> name /\ alookup n (cs_cache s) = Some e')).
+                   (n = name /\ e' = mkEntry exp 1 (Some (cs_next s))) \/ (n <> name /\ alookup n (cs_cache s) = Some e')).
       { intros n e'. subst c'. destruct (String.eqb_spec n name) as [->|Hne].
         - destruct (cached_of cf).
           + rewrite alookup_ainsert_same. intros [= <-]. left. auto.
@@ -281,9 +343,11 @@ Proof.
                                ((cs_next s, ver_of s name) :: cs_mem s) (cs_created s) (cs_cache_ttl s)) j = mem_of s j).
       { intros j Hj. unfold mem_of. cbn [cs_mem nlookup]. destruct (Nat.eqb_spec (cs_next s) j); [lia|reflexivity]. }
       split; [split|]; cbn [cs_cache cs_loads cs_next].
-      * intros n e' He'. apply Hl in He' as [[-> Hi]|[_ He']]; eauto.
-      * intros n e' i He' Hi'. apply Hl in He' as [[-> Hi]|[_ He']].
-        -- rewrite Hi in Hi'. injection Hi' as <-. left. reflexivity.
+      * intros n e' He' Hne. apply Hl in He' as [[-> _]|[_ He']]; [congruence|eauto].
+      * intros n e' He' Hne. apply Hl in He' as [[-> _]|[_ He']]; [congruence|eauto].
+      * intros e' He'. apply Hl in He' as [[_ ->]|[Hne _]]; [reflexivity|congruence].
+      * intros n e' i He' Hi'. apply Hl in He' as [[-> ->]|[_ He']].
+        -- cbn [ce_inst] in Hi'. injection Hi' as <-. left. reflexivity.
         -- right. eauto.
       * intros n i [[= <- <-]|Hin]; [lia|]. apply H3 in Hin. lia.
       * intros n1 n2 i [E1|Hin1] [E2|Hin2].
@@ -291,20 +355,20 @@ Proof.
         -- injection E1 as <- <-. apply H3 in Hin2. lia.
         -- injection E2 as <- <-. apply H3 in Hin1. lia.
         -- eauto.
-      * intros n e' i He' Hi'. apply Hl in He' as [[-> Hi]|[Hne He']].
-        -- rewrite Hi in Hi'. injection Hi' as <-. unfold mem_of. cbn [cs_mem nlookup]. rewrite Nat.eqb_refl. reflexivity.
+      * intros n e' i He' Hi'. apply Hl in He' as [[-> ->]|[Hne He']].
+        -- cbn [ce_inst] in Hi'. injection Hi' as <-. unfold mem_of. cbn [cs_mem nlookup]. rewrite Nat.eqb_refl. reflexivity.
         -- rewrite Hmem by (eapply H3, H2; eauto). change (mem_of s i = ver_of s n). eauto.
       * intros i [= <-]. split; [left; reflexivity|split].
         -- unfold mem_of. cbn [cs_mem nlookup]. rewrite Nat.eqb_refl. reflexivity.
-        -- intros e' He'. apply Hl in He' as [[_ Hi]|[Hne _]]; [exact Hi|congruence].
+        -- intros e' He'. apply Hl in He' as [[_ ->]|[Hne _]]; [reflexivity|congruence].
 Qed.
 
 Lemma Inv_use s1 q i :
-  Inv s1 -> In (cq_name q, i) (cs_loads s1) ->
+  MInv (cq_name q) s1 -> In (cq_name q, i) (cs_loads s1) ->
   (forall e, alookup (cq_name q) (cs_cache s1) = Some e -> ce_inst e = Some i) ->
-  Inv (cuse s1 q i).
+  MInv (cq_name q) (cuse s1 q i).
 Proof.
-  intros [H1 H2 H3 H4 H5] Hin Hslot.
+  intros [H1 H0 Hone H2 H3 H4 H5] Hin Hslot.
   destruct (cuse_fields s1 q i) as (Fc & Fn & Fl).
   split; rewrite ?Fc, ?Fn, ?Fl; auto.
   intros n e i' He Hi'.
@@ -366,25 +430,28 @@ Lemma copen_cases cf s name check now :
   Inv s ->
   (exists e i, alookup name (cs_cache s) = Some e /\ ce_inst e = Some i /\
      copen cf s name check now =
-     (set_cache s (ainsert name (mkEntry (ce_expires e) true (Some i)) (cs_cache s)), Ok i)) \/
+     (set_cache s (ainsert name (mkEntry (ce_expires e) 1 (Some i)) (cs_cache s)), Ok i)) \/
   (alookup name (cs_cache s) = None /\ blocked_of cf s name check = true /\
      copen cf s name check now =
-     (set_cache s (aremove name (if cached_of cf then ainsert name (mkEntry (exp0_of cf now) false None) (cs_cache s)
-                                 else cs_cache s)), Err "notfound")) \/
+     ((if cached_of cf
+       then set_cache (set_cache s (ainsert name (mkEntry (exp0_of cf now) 1 None) (cs_cache s)))
+                      (ainsert name (mkEntry (exp0_of cf now) 1 None)
+                               (ainsert name (mkEntry (exp0_of cf now) 1 None) (cs_cache s)))
+       else s), Err "notfound")) \/
   (alookup name (cs_cache s) = None /\ blocked_of cf s name check = false /\
      copen cf s name check now =
      (mkCsys (if cached_of cf
               then ainsert name (mkEntry (match alookup name (cs_cache_ttl s) with
                                           | Some ms => Some (now + ms) | None => exp0_of cf now end)
-                                         false (Some (cs_next s)))
-                           (ainsert name (mkEntry (exp0_of cf now) false None) (cs_cache s))
+                                         1 (Some (cs_next s)))
+                           (ainsert name (mkEntry (exp0_of cf now) 1 None) (cs_cache s))
               else cs_cache s)
              (S (cs_next s)) ((name, cs_next s) :: cs_loads s) (cs_ver s)
              ((cs_next s, ver_of s name) :: cs_mem s) (cs_created s) (cs_cache_ttl s), Ok (cs_next s))).
 Proof.
   intros HI. destruct (alookup name (cs_cache s)) as [e|] eqn:He.
   - left. destruct (inv_loaded s HI _ _ He) as [i Hi]. exists e, i. split; [reflexivity|split; [exact Hi|]].
-    apply copen_hit; assumption.
+    rewrite (copen_hit cf s name check now e i He Hi). rewrite (inv_idle s HI _ _ He). reflexivity.
   - right. rewrite (copen_absent cf s name check now He).
     destruct (blocked_of cf s name check); [left|right]; auto.
 Qed.
@@ -420,12 +487,16 @@ Proof.
   - rewrite Hb.
     match goal with |- context [crelease ?s0 _ _] => set (s1 := s0) end.
     destruct (crelease_fields s1 (cq_name q) (cq_now q)) as (Fn & Fl & Fv & Fm & Fc & Ft).
-    rewrite Fn, Fl, Fv, Fm, Fc, Ft. repeat split.
-    + rewrite crelease_lookup, String.eqb_refl. subst s1. cbn [cs_cache set_cache].
-      rewrite alookup_aremove_same. reflexivity.
+    rewrite Fn, Fl, Fv, Fm, Fc, Ft.
+    assert (Hs1 : cs_next s1 = cs_next s /\ cs_loads s1 = cs_loads s /\ cs_ver s1 = cs_ver s /\ cs_mem s1 = cs_mem s /\
+                  cs_created s1 = cs_created s /\ cs_cache_ttl s1 = cs_cache_ttl s).
+    { subst s1. destruct (cached_of cf); cbn; auto 10. }
+    destruct Hs1 as (-> & -> & -> & -> & -> & ->). repeat split.
+    + rewrite crelease_lookup, String.eqb_refl. subst s1. destruct (cached_of cf); cbn [cs_cache set_cache].
+      * rewrite alookup_ainsert_same. reflexivity.
+      * rewrite He. reflexivity.
     + intros n Hne. rewrite crelease_lookup. apply String.eqb_neq in Hne as Hne'. rewrite Hne'.
-      subst s1. cbn [cs_cache set_cache]. rewrite alookup_aremove_other by exact Hne.
-      destruct (cached_of cf); [apply alookup_ainsert_other; exact Hne|reflexivity].
+      subst s1. destruct (cached_of cf); cbn [cs_cache set_cache]; [rewrite !alookup_ainsert_other by exact Hne|]; reflexivity.
   - rewrite Hb. eexists _, _. split; [reflexivity|]. cbn [cs_ver cs_created cs_cache_ttl cs_cache].
     repeat split. intros n Hne.
     destruct (cached_of cf); [rewrite !alookup_ainsert_other by exact Hne|]; reflexivity.
@@ -985,7 +1056,7 @@ Lemma request_cases cf s q :
   ((exists e i, alookup name (cs_cache s) = Some e /\ ce_inst e = Some i /\
       o = mkCobs (Ok i) false /\ cs_next s' = cs_next s /\ cs_loads s' = cs_loads s /\
       alookup name (cs_cache s') =
-        if live_exp (ce_expires e) now then Some (mkEntry (ce_expires e) false (Some i)) else None) \/
+        if live_exp (ce_expires e) now then Some (mkEntry (ce_expires e) 0 (Some i)) else None) \/
    (alookup name (cs_cache s) = None /\ blocked_of cf s name (check_of q) = true /\
       o = mkCobs (Err "notfound") false /\ cs_next s' = cs_next s /\ cs_loads s' = cs_loads s /\
       cs_cache_ttl s' = cs_cache_ttl s /\ alookup name (cs_cache s') = None) \/
@@ -994,7 +1065,7 @@ Lemma request_cases cf s q :
       cs_loads s' = (name, cs_next s) :: cs_loads s /\
       alookup name (cs_cache s') =
         let exp := match alookup name (cs_cache_ttl s) with Some ms => Some (now + ms) | None => exp0_of cf now end in
-        if cached_of cf && live_exp exp now then Some (mkEntry exp false (Some (cs_next s))) else None)).
+        if cached_of cf && live_exp exp now then Some (mkEntry exp 0 (Some (cs_next s))) else None)).
 Proof.
   intros HI name now s' o. subst name now s' o.
   pose proof (Inv_request cf s q HI) as [_ Hst].
@@ -1013,15 +1084,17 @@ Proof.
       rewrite alookup_ainsert_same. reflexivity.
   - match goal with |- context [crelease ?s0 _ _] => set (s1 := s0) in * end.
     destruct (crelease_fields s1 (cq_name q) (cq_now q)) as (Fn & Fl & _ & _ & _ & Ft).
-    assert (Hl : forall n, alookup n (cs_cache s1) = if String.eqb n (cq_name q) then None else alookup n (cs_cache s)).
-    { intros n. subst s1. cbn [cs_cache set_cache]. rewrite alookup_aremove.
-      destruct (String.eqb_spec n (cq_name q)) as [->|Hne]; [reflexivity|].
-      destruct (cached_of cf); [apply alookup_ainsert_other; exact Hne|reflexivity]. }
+    assert (Hs1 : cs_next s1 = cs_next s /\ cs_loads s1 = cs_loads s /\ cs_cache_ttl s1 = cs_cache_ttl s).
+    { subst s1. destruct (cached_of cf); cbn; auto. }
+    destruct Hs1 as (Sn & Sl & St).
     split.
-    + intros n Hne. apply String.eqb_neq in Hne as Hne'. rewrite crelease_lookup, Ft, Hne', Hl, Hne'.
-      split; reflexivity.
-    + right; left. rewrite Fn, Fl, Ft. repeat split; try assumption.
-      rewrite crelease_lookup, String.eqb_refl, Hl. rewrite String.eqb_refl. reflexivity.
+    + intros n Hne. apply String.eqb_neq in Hne as Hne'. rewrite crelease_lookup, Ft, Hne', St.
+      split; [|reflexivity]. subst s1. destruct (cached_of cf); cbn [cs_cache set_cache];
+        [rewrite !alookup_ainsert_other by exact Hne|]; reflexivity.
+    + right; left. rewrite Fn, Fl, Ft, Sn, Sl, St. repeat split; try assumption.
+      rewrite crelease_lookup, String.eqb_refl. subst s1. destruct (cached_of cf); cbn [cs_cache set_cache].
+      * rewrite alookup_ainsert_same. reflexivity.
+      * rewrite He. reflexivity.
   - match goal with |- context [crelease (cuse ?s0 _ _) _ _] => set (s1 := s0) in * end.
     destruct (crelease_fields (cuse s1 q (cs_next s)) (cq_name q) (cq_now q)) as (Fn & Fl & _ & _ & _ & Ft).
     destruct (cuse_fields s1 q (cs_next s)) as (Uc & Un & Ul).
@@ -1161,7 +1234,7 @@ Proof.
   - match goal with |- context [crelease ?s0 _ _] => destruct (crelease_fields s0 (cq_name q) (cq_now q)) as (_ & _ & _ & _ & _ & ->) end.
     unfold cuse, bump. destruct (cq_kind q); cbn [cs_cache_ttl set_cache]; eauto.
   - match goal with |- context [crelease ?s0 _ _] => destruct (crelease_fields s0 (cq_name q) (cq_now q)) as (_ & _ & _ & _ & _ & ->) end.
-    left. reflexivity.
+    left. destruct (cached_of cf); reflexivity.
   - match goal with |- context [crelease ?s0 _ _] => destruct (crelease_fields s0 (cq_name q) (cq_now q)) as (_ & _ & _ & _ & _ & ->) end.
     unfold cuse, bump. destruct (cq_kind q); cbn [cs_cache_ttl]; eauto.
 Qed.
@@ -1255,6 +1328,411 @@ Proof.
   destruct (never_run cf h Httl Hh csys0 Inv0 HN0 HP0) as (HN & Hcnt & Hnd & _ & _).
   split; [|split; [exact Hnd|exact HN]].
   intros name. rewrite Hcnt. cbn. lia.
+Qed.
+
+(** * 6. An instance in use is never replaced: all schedules of N clients that
+    open, use and release one location *)
+
+Lemma lrun_ind cf (P : lsys -> Prop) n sched :
+  P (linit n) -> (forall k ev, P k -> P (lstep cf k ev)) -> P (lrun cf n sched).
+Proof.
+  intros H0 Hstep. unfold lrun. generalize (linit n) H0. induction sched as [|ev r IH]; intros k Hk; cbn [fold_left].
+  - exact Hk.
+  - apply IH, Hstep, Hk.
+Qed.
+
+Lemma lrun_app cf n s1 s2 : lrun cf n (s1 ++ s2) = fold_left (lstep cf) s2 (lrun cf n s1).
+Proof. unfold lrun. apply fold_left_app. Qed.
+
+Lemma lset_split {A} (l : list A) j old v :
+  nth_error l j = Some old ->
+  exists l1 l2, l = (l1 ++ old :: l2)%list /\ length l1 = j /\ lset l j v = (l1 ++ v :: l2)%list.
+Proof.
+  intros H. apply nth_error_split in H as (l1 & l2 & Heq & Hlen). exists l1, l2. split; [exact Heq|split; [exact Hlen|]].
+  unfold lset. rewrite Heq. subst j.
+  rewrite firstn_app, firstn_all, Nat.sub_diag. cbn [firstn]. rewrite app_nil_r.
+  rewrite skipn_app, skipn_all2 by lia. replace (S (length l1) - length l1)%nat with 1%nat by lia. reflexivity.
+Qed.
+
+Lemma lset_nth_split {A} (l : list A) i v d :
+  (i < length l)%nat ->
+  exists l1 l2, l = (l1 ++ nth i l d :: l2)%list /\ length l1 = i /\ lset l i v = (l1 ++ v :: l2)%list.
+Proof.
+  intros Hi. apply lset_split. apply nth_error_nth'. exact Hi.
+Qed.
+
+Lemma lset_length {A} (l : list A) i v : (i < length l)%nat -> length (lset l i v) = length l.
+Proof.
+  intros Hi. destruct (lset_nth_split l i v v Hi) as (l1 & l2 & Heq & _ & Hset).
+  rewrite Hset. apply (f_equal (@length A)) in Heq. rewrite Heq, !app_length. reflexivity.
+Qed.
+
+Lemma lset_nth_same {A} (l : list A) i v d : (i < length l)%nat -> nth i (lset l i v) d = v.
+Proof.
+  intros Hi. destruct (lset_nth_split l i v d Hi) as (l1 & l2 & _ & Hlen & Hset).
+  rewrite Hset, app_nth2 by lia. rewrite Hlen, Nat.sub_diag. reflexivity.
+Qed.
+
+Lemma lusers_mid l1 c l2 :
+  lusers (l1 ++ c :: l2) = (lusers l1 + (if luser c then 1 else 0) + lusers l2)%nat.
+Proof.
+  unfold lusers. rewrite filter_app, app_length. cbn [filter]. destruct (luser c); cbn [length]; lia.
+Qed.
+
+Lemma lusers_zero l : lusers l = 0%nat -> Forall (fun c => c = LIdle) l.
+Proof.
+  induction l as [|c r IH]; intros H; [constructor|].
+  change (c :: r) with ([] ++ c :: r)%list in H. rewrite lusers_mid in H. cbn in H.
+  destruct c; cbn in H; try lia. constructor; [reflexivity|apply IH; lia].
+Qed.
+
+Lemma lusers_idle l : Forall (fun c => c = LIdle) l -> lusers l = 0%nat.
+Proof.
+  induction 1 as [|c r Hc _ IH]; [reflexivity|].
+  change (c :: r) with ([] ++ c :: r)%list. rewrite lusers_mid, IH, Hc. reflexivity.
+Qed.
+
+Ltac lsimp :=
+  unfold lwith_clients, lwith_cache, lentry_at, lmem_of;
+  cbn [l_slot l_entries l_clients l_mem l_store l_reads l_now l_prop l_next].
+
+(** what a client may be doing while the map holds entry [ei] with instance [inst] *)
+Definition client_on (ei : nat) (inst : option nat) (c : lpc) : Prop :=
+  match c with
+  | LIdle => True
+  | LOpening e' => e' = ei
+  | LFailed e' => e' = ei
+  | LHolding e' i => e' = ei /\ inst = Some i
+  end.
+
+(** the invariant of the counting protocol: every client that is between its
+    Open and its Release works on THE entry of the map; that entry's Pending is
+    their number; who holds an instance holds the entry's; that instance
+    contains every acknowledged write *)
+Definition LSlot (k : lsys) : Prop :=
+  match l_slot k with
+  | None => Forall (fun c => c = LIdle) (l_clients k)
+  | Some ei =>
+      (ei < length (l_entries k))%nat /\
+      le_pending (lentry_at k ei) = lusers (l_clients k) /\
+      Forall (client_on ei (le_inst (lentry_at k ei))) (l_clients k) /\
+      (forall i, le_inst (lentry_at k ei) = Some i -> lmem_of k i = l_store k)
+  end.
+
+Definition LReads (k : lsys) : Prop :=
+  forall j seen acked, In (j, seen, acked) (l_reads k) -> seen = acked.
+
+Definition LInv (k : lsys) : Prop := LSlot k /\ LReads k.
+
+Lemma LInv_init n : LInv (linit n).
+Proof.
+  split.
+  - unfold LSlot. cbn. apply Forall_forall. intros c Hc. apply repeat_spec in Hc. exact Hc.
+  - intros j seen acked. cbn. contradiction.
+Qed.
+
+(** a client between Open and Release: the map holds its entry *)
+Lemma LSlot_user k j c :
+  LSlot k -> nth_error (l_clients k) j = Some c -> luser c = true ->
+  exists ei, l_slot k = Some ei /\ (ei < length (l_entries k))%nat /\
+    le_pending (lentry_at k ei) = lusers (l_clients k) /\
+    Forall (client_on ei (le_inst (lentry_at k ei))) (l_clients k) /\
+    (forall i, le_inst (lentry_at k ei) = Some i -> lmem_of k i = l_store k) /\
+    client_on ei (le_inst (lentry_at k ei)) c.
+Proof.
+  unfold LSlot. intros HS Hj Hu. apply nth_error_In in Hj as Hin.
+  destruct (l_slot k) as [ei|].
+  - destruct HS as (H1 & H2 & H3 & H4). exists ei. repeat split; try assumption.
+    rewrite Forall_forall in H3. apply H3. exact Hin.
+  - rewrite Forall_forall in HS. rewrite (HS _ Hin) in Hu. discriminate.
+Qed.
+
+Lemma LSlot_holds k j i :
+  LSlot k -> lholds k j i -> lslot_inst k = Some i /\ lmem_of k i = l_store k.
+Proof.
+  intros HS [e1 Hj]. destruct (LSlot_user k j _ HS Hj eq_refl) as (ei & Hs & _ & _ & _ & Hm & [_ Hi]).
+  unfold lslot_inst. rewrite Hs. split; [exact Hi|apply Hm; exact Hi].
+Qed.
+
+Definition stable (k k' : lsys) : Prop :=
+  forall i, lslot_inst k = Some i -> l_slot k' = None \/ lslot_inst k' = Some i.
+
+Lemma stable_same k k' :
+  l_slot k' = l_slot k -> (forall ei, l_slot k = Some ei -> le_inst (lentry_at k' ei) = le_inst (lentry_at k ei)) ->
+  stable k k'.
+Proof.
+  intros Hs He i Hi. right. unfold lslot_inst in *. rewrite Hs. destruct (l_slot k) as [ei|]; [|discriminate].
+  rewrite He by reflexivity. exact Hi.
+Qed.
+
+(** Release by a client that is between its Open and its Release *)
+Lemma LSlot_release cf k j c :
+  lrepaired cf -> LSlot k -> nth_error (l_clients k) j = Some c -> luser c = true ->
+  LSlot (lrelease cf k j) /\ stable k (lrelease cf k j) /\ l_reads (lrelease cf k j) = l_reads k.
+Proof.
+  intros [Hcnt Hcached] HS Hj Hu.
+  destruct (LSlot_user k j c HS Hj Hu) as (ei & Hs & Hlt & Hp & Hall & Hm & _).
+  unfold lrelease. rewrite Hs, Hcnt. unfold lentry_at, lmem_of in *.
+  set (e := nth ei (l_entries k) lentry0) in *.
+  set (e' := mkLentry (le_expires e) (Nat.pred (le_pending e)) (le_inst e)).
+  destruct (lset_split (l_clients k) j c LIdle Hj) as (l1 & l2 & Hcl & _ & Hset).
+  assert (Hp' : Nat.pred (le_pending e) = lusers (l1 ++ LIdle :: l2)%list).
+  { rewrite Hp, Hcl, !lusers_mid, Hu. cbn. lia. }
+  match goal with |- context [if ?b then Some ei else None] => destruct b eqn:Hlive end; lsimp; rewrite Hset.
+  - split; [|split; [|reflexivity]].
+    + unfold LSlot. lsimp.
+      rewrite lset_nth_same by exact Hlt. rewrite lset_length by exact Hlt.
+      split; [exact Hlt|split; [exact Hp'|split]]; cbn [le_inst e'].
+      * rewrite Hcl in Hall. eapply Forall_replace; [exact Hall|auto|exact I].
+      * exact Hm.
+    + apply stable_same; lsimp; [symmetry; exact Hs|].
+      intros ei' Hei'. rewrite Hs in Hei'. injection Hei' as <-.
+      rewrite lset_nth_same by exact Hlt. reflexivity.
+  - split; [|split; [|reflexivity]].
+    + unfold LSlot. lsimp.
+      apply Bool.orb_false_iff in Hlive as [Hz _]. apply Nat.ltb_ge in Hz. cbn [le_pending e'] in Hz.
+      apply lusers_zero. lia.
+    + intros i _. left. reflexivity.
+Qed.
+
+Lemma LInv_step cf k ev :
+  lrepaired cf -> LInv k -> LInv (lstep cf k ev) /\ stable k (lstep cf k ev).
+Proof.
+  intros Hrep [HS HR].
+  assert (Hsame : LInv k /\ stable k k) by (split; [split; assumption|intros i Hi; right; exact Hi]).
+  destruct Hrep as [Hcnt Hcached]. pose proof (conj Hcnt Hcached : lrepaired cf) as Hrep.
+  destruct ev as [j|j|j|j|d|p]; cbn [lstep].
+  - (* a critical section of client j *)
+    destruct (nth_error (l_clients k) j) as [c|] eqn:Hj; [|exact Hsame].
+    destruct c as [|e1|e1 i1|e1].
+    + (* Open, first section *)
+      unfold lopen1.
+      destruct (l_slot k) as [ei|] eqn:Hs.
+      * unfold LSlot in HS. rewrite Hs in HS. destruct HS as (Hlt & Hp & Hall & Hm).
+        rewrite Hcnt. unfold lentry_at, lmem_of in *.
+        set (e := nth ei (l_entries k) lentry0) in *.
+        set (c' := match le_inst e with Some i => LHolding ei i | None => LOpening ei end).
+        destruct (lset_split (l_clients k) j LIdle c' Hj) as (l1 & l2 & Hcl & _ & Hset).
+        assert (Hu' : luser c' = true) by (subst c'; destruct (le_inst e); reflexivity).
+        split; [split|].
+        -- unfold LSlot. lsimp.
+           rewrite lset_nth_same by exact Hlt. rewrite lset_length by exact Hlt. rewrite Hset.
+           split; [exact Hlt|split; [|split]]; cbn [le_pending le_inst].
+           ++ rewrite Hp, Hcl, !lusers_mid, Hu'. cbn. lia.
+           ++ rewrite Hcl in Hall. eapply Forall_replace; [exact Hall|auto|].
+              subst c'. destruct (le_inst e) as [i|]; cbn; auto.
+           ++ exact Hm.
+        -- exact HR.
+        -- apply stable_same; lsimp; [symmetry; exact Hs|].
+           intros ei' Hei'. rewrite Hs in Hei'. injection Hei' as <-.
+           rewrite lset_nth_same by exact Hlt. reflexivity.
+      * unfold LSlot in HS. rewrite Hs in HS. rewrite Hcnt, Hcached.
+        set (ei := length (l_entries k)).
+        set (e := mkLentry _ 1 None).
+        destruct (lset_split (l_clients k) j LIdle (LOpening ei) Hj) as (l1 & l2 & Hcl & _ & Hset).
+        rewrite Hcl in HS. apply Forall_app in HS as [HS1 HS2]. inversion HS2 as [|? ? _ HS3]; subst.
+        split; [split|].
+        -- unfold LSlot. lsimp.
+           rewrite app_nth2 by (subst ei; lia). subst ei. rewrite Nat.sub_diag. cbn [nth]. rewrite Hset.
+           split; [rewrite app_length; cbn; lia|split; [|split]]; cbn [le_pending le_inst e].
+           ++ rewrite lusers_mid, (lusers_idle _ HS1), (lusers_idle _ HS3). reflexivity.
+           ++ apply Forall_app. split; [|constructor; [reflexivity|]].
+              ** eapply Forall_impl; [|exact HS1]. intros x ->. exact I.
+              ** eapply Forall_impl; [|exact HS3]. intros x ->. exact I.
+           ++ intros i Hi. discriminate.
+        -- exact HR.
+        -- intros i Hi. unfold lslot_inst in Hi. rewrite Hs in Hi. discriminate.
+    + (* Open, second section: Get *)
+      destruct (LSlot_user k j _ HS Hj eq_refl) as (ei & Hs & Hlt & Hp & Hall & Hm & Hon).
+      cbn [client_on] in Hon. subst e1.
+      unfold lopen2. unfold lentry_at, lmem_of in *. set (e := nth ei (l_entries k) lentry0) in *.
+      destruct (le_inst e) as [i|] eqn:Hi.
+      * destruct (lset_split (l_clients k) j (LOpening ei) (LHolding ei i) Hj) as (l1 & l2 & Hcl & _ & Hset).
+        split; [split|].
+        -- unfold LSlot. lsimp. rewrite Hs. fold e. rewrite Hi, Hset.
+           split; [exact Hlt|split; [|split]].
+           ++ rewrite Hp, Hcl, !lusers_mid. reflexivity.
+           ++ rewrite Hcl in Hall. eapply Forall_replace; [exact Hall|auto|]. cbn. auto.
+           ++ exact Hm.
+        -- exact HR.
+        -- apply stable_same; [reflexivity|]. intros; reflexivity.
+      * destruct (lset_split (l_clients k) j (LOpening ei) (LHolding ei (l_next k)) Hj) as (l1 & l2 & Hcl & _ & Hset).
+        split; [split|].
+        -- unfold LSlot. lsimp. rewrite Hs.
+           rewrite lset_nth_same by exact Hlt. rewrite lset_length by exact Hlt. rewrite Hset.
+           split; [exact Hlt|split; [|split]]; cbn [le_pending le_inst].
+           ++ rewrite Hp, Hcl, !lusers_mid. reflexivity.
+           ++ rewrite Hcl in Hall. eapply Forall_replace; [exact Hall| |cbn; auto].
+              intros x Hx. destruct x; cbn in *; auto. destruct Hx as [_ Hx]. discriminate.
+           ++ intros i [= <-]. cbn [ilookup]. rewrite Nat.eqb_refl. reflexivity.
+        -- exact HR.
+        -- intros i Hi'. unfold lslot_inst, lentry_at in Hi'. rewrite Hs in Hi'. fold e in Hi'. congruence.
+    + (* Release after a successful Open *)
+      destruct (LSlot_release cf k j _ Hrep HS Hj eq_refl) as (H1 & H2 & H3).
+      split; [split; [exact H1|]|exact H2]. unfold LReads. rewrite H3. exact HR.
+    + (* Release after a failed Open *)
+      destruct (LSlot_release cf k j _ Hrep HS Hj eq_refl) as (H1 & H2 & H3).
+      split; [split; [exact H1|]|exact H2]. unfold LReads. rewrite H3. exact HR.
+  - (* a load fails *)
+    destruct (nth_error (l_clients k) j) as [[|e1|e1 i1|e1]|] eqn:Hj; try exact Hsame.
+    destruct (le_inst (lentry_at k e1)) as [i|] eqn:Hi; [exact Hsame|].
+    destruct (LSlot_user k j _ HS Hj eq_refl) as (ei & Hs & Hlt & Hp & Hall & Hm & Hon).
+    cbn [client_on] in Hon. subst e1. unfold lentry_at, lmem_of in *.
+    destruct (lset_split (l_clients k) j (LOpening ei) (LFailed ei) Hj) as (l1 & l2 & Hcl & _ & Hset).
+    split; [split|].
+    + unfold LSlot. lsimp. rewrite Hs. rewrite Hset.
+      split; [exact Hlt|split; [|split]].
+      * rewrite Hp, Hcl, !lusers_mid. reflexivity.
+      * rewrite Hcl in Hall. eapply Forall_replace; [exact Hall|auto|]. cbn. auto.
+      * exact Hm.
+    + exact HR.
+    + apply stable_same; [reflexivity|]. intros; reflexivity.
+  - (* a read *)
+    destruct (nth_error (l_clients k) j) as [[|e1|e1 i1|e1]|] eqn:Hj; try exact Hsame.
+    destruct (LSlot_holds k j i1 HS (ex_intro _ e1 Hj)) as [_ Hcur].
+    split; [split|].
+    + exact HS.
+    + intros j' seen acked. lsimp. intros [[= <- <- <-]|Hin]; [exact Hcur|eapply HR; exact Hin].
+    + apply stable_same; [reflexivity|]. intros; reflexivity.
+  - (* a write *)
+    destruct (nth_error (l_clients k) j) as [[|e1|e1 i1|e1]|] eqn:Hj; try exact Hsame.
+    destruct (LSlot_user k j _ HS Hj eq_refl) as (ei & Hs & Hlt & Hp & Hall & Hm & Hon).
+    cbn [client_on] in Hon. destruct Hon as [-> Hi1]. unfold lentry_at, lmem_of in *.
+    split; [split|].
+    + unfold LSlot. lsimp. rewrite Hs.
+      split; [exact Hlt|split; [exact Hp|split; [exact Hall|]]].
+      intros i Hi. assert (i = i1) by congruence. subst i.
+      cbn [ilookup]. rewrite Nat.eqb_refl. rewrite (Hm _ Hi1). reflexivity.
+    + exact HR.
+    + apply stable_same; [reflexivity|]. intros; reflexivity.
+  - (* the clock moves *)
+    split; [split; [exact HS|exact HR]|]. apply stable_same; [reflexivity|]. intros; reflexivity.
+  - (* !cacheTTL changes *)
+    split; [split; [exact HS|exact HR]|]. apply stable_same; [reflexivity|]. intros; reflexivity.
+Qed.
+
+Lemma LInv_run cf n sched : lrepaired cf -> LInv (lrun cf n sched).
+Proof.
+  intros Hrep. apply lrun_ind; [apply LInv_init|]. intros k ev Hk. apply (LInv_step cf k ev Hrep Hk).
+Qed.
+
+Theorem in_use_instance_never_replaced : in_use_instance_never_replaced_statement.
+Proof.
+  intros cf n sched j i Hrep Hh.
+  pose proof (LInv_run cf n sched Hrep) as HI.
+  destruct (LSlot_holds _ j i (proj1 HI) Hh) as [Hslot _].
+  split; [exact Hslot|].
+  intros ev j' i' Hh'.
+  destruct (LInv_step cf _ ev Hrep HI) as [HI' Hst].
+  destruct (LSlot_holds _ j' i' (proj1 HI') Hh') as [Hslot' _].
+  destruct (Hst i Hslot) as [Hnone|Hsame].
+  - unfold lslot_inst in Hslot'. rewrite Hnone in Hslot'. discriminate.
+  - congruence.
+Qed.
+
+Theorem overlapping_requests_share_one_instance : overlapping_requests_share_one_instance_statement.
+Proof.
+  intros cf n sched j1 i1 j2 i2 Hrep H1 H2.
+  pose proof (LInv_run cf n sched Hrep) as [HS _].
+  destruct (LSlot_holds _ _ _ HS H1) as [E1 _]. destruct (LSlot_holds _ _ _ HS H2) as [E2 _]. congruence.
+Qed.
+
+Theorem held_write_acknowledged : held_write_acknowledged_statement.
+Proof.
+  intros cf k j i [ei Hj] k'. subst k'. cbn [lstep]. rewrite Hj. lsimp.
+  repeat split. cbn [ilookup]. rewrite Nat.eqb_refl. reflexivity.
+Qed.
+
+Lemma lstep_store_grows cf k ev : exists l, l_store (lstep cf k ev) = (l ++ l_store k)%list.
+Proof.
+  destruct ev as [j|j|j|j|d|p]; cbn [lstep].
+  - destruct (nth_error (l_clients k) j) as [[|e1|e1 i1|e1]|]; try (exists []; reflexivity).
+    + unfold lopen1. destruct (l_slot k); exists []; reflexivity.
+    + unfold lopen2. destruct (le_inst (lentry_at k e1)); exists []; reflexivity.
+    + unfold lrelease. destruct (l_slot k); exists []; reflexivity.
+    + unfold lrelease. destruct (l_slot k); exists []; reflexivity.
+  - destruct (nth_error (l_clients k) j) as [[|e1|e1 i1|e1]|]; try (exists []; reflexivity).
+    destruct (le_inst (lentry_at k e1)); exists []; reflexivity.
+  - destruct (nth_error (l_clients k) j) as [[|e1|e1 i1|e1]|]; exists []; reflexivity.
+  - destruct (nth_error (l_clients k) j) as [[|e1|e1 i1|e1]|]; try (exists []; reflexivity).
+    exists [length (l_store k)]. reflexivity.
+  - exists []. reflexivity.
+  - exists []. reflexivity.
+Qed.
+
+Lemma lrun_store_grows cf later : forall k, exists l, l_store (fold_left (lstep cf) later k) = (l ++ l_store k)%list.
+Proof.
+  induction later as [|ev r IH]; intros k; cbn [fold_left].
+  - exists []. reflexivity.
+  - destruct (IH (lstep cf k ev)) as [l1 H1]. destruct (lstep_store_grows cf k ev) as [l2 H2].
+    exists (l1 ++ l2)%list. rewrite H1, H2, app_assoc. reflexivity.
+Qed.
+
+Theorem held_instance_is_current : held_instance_is_current_statement.
+Proof.
+  intros cf n sched Hrep k. subst k. pose proof (LInv_run cf n sched Hrep) as [HS HR]. split.
+  - intros j i Hh. apply (LSlot_holds _ _ _ HS Hh).
+  - exact HR.
+Qed.
+
+Theorem acknowledged_write_visible_to_later_open : acknowledged_write_visible_to_later_open_statement.
+Proof.
+  intros cf n sched later w Hrep Hw k. subst k.
+  assert (Hst : In w (l_store (lrun cf n (sched ++ later)))).
+  { rewrite lrun_app. destruct (lrun_store_grows cf later (lrun cf n sched)) as [l ->]. apply in_or_app. right. exact Hw. }
+  split; [exact Hst|].
+  intros j i Hh. destruct (held_instance_is_current cf n (sched ++ later)%list Hrep) as [Hcur _].
+  rewrite (Hcur j i Hh). exact Hst.
+Qed.
+
+Theorem pending_counts_users : pending_counts_users_statement.
+Proof.
+  intros cf n sched ei Hrep Hs. pose proof (LInv_run cf n sched Hrep) as [HS _].
+  unfold LSlot in HS. rewrite Hs in HS. tauto.
+Qed.
+
+(** ** The Pending boolean of the earlier code (finding D60) *)
+
+(** TTL 1 ms, two clients.  Client 0 opens the location (entry 0, instance 0);
+    client 1 opens it too (the same entry and instance); 5 ms pass; client 0
+    releases: the flag is cleared although client 1 still uses the instance,
+    the entry's time is up, it leaves the map.  Client 0's next request finds
+    nothing and loads instance 1 from storage.  Client 1 now writes through
+    instance 0 (acknowledged, in storage) - and client 0, reading instance 1
+    afterwards, does not see the write; nor does any later request, which the
+    map serves with instance 1. *)
+Definition d60_conf (count : bool) : lconf := mkLconf (Some 1) true count.
+Definition d60_sched : list levent :=
+  [LStep 0; LStep 0; LStep 1; LTick 5; LStep 0; LStep 0; LStep 0; LWrite 1; LRead 0; LStep 1; LStep 1]%nat.
+
+Lemma boolean_pending_counterexample :
+  let k := lrun (d60_conf false) 2 (firstn 9 d60_sched) in
+  l_clients k = [LHolding 1 1; LHolding 0 0]%nat /\          (* two instances of the location in use *)
+  l_next k = 2%nat /\                                         (* loaded twice *)
+  l_store k = [0%nat] /\                                      (* the acknowledged write *)
+  lmem_of k 0 = [0%nat] /\ lmem_of k 1 = [] /\                (* is in the orphaned instance only *)
+  l_reads k = [(0%nat, [], [0%nat])] /\                       (* a read that misses it *)
+  lslot_inst k = Some 1%nat /\                                (* and the map serves the other instance *)
+  let k' := lrun (d60_conf false) 2 d60_sched in              (* also to the writer's next request *)
+  l_clients k' = [LHolding 1 1; LHolding 1 1]%nat /\ lmem_of k' 1 = [] /\ l_store k' = [0%nat].
+Proof. vm_compute. repeat split; reflexivity. Qed.
+
+(** the refutation as the negation of the statements for the boolean protocol *)
+Lemma boolean_pending_replaces_instance_in_use :
+  ~ (forall n sched j1 i1 j2 i2,
+       lholds (lrun (d60_conf false) n sched) j1 i1 -> lholds (lrun (d60_conf false) n sched) j2 i2 -> i1 = i2) /\
+  ~ (forall n sched later w, In w (l_store (lrun (d60_conf false) n sched)) ->
+       forall j i, lholds (lrun (d60_conf false) n (sched ++ later)) j i ->
+                   In w (lmem_of (lrun (d60_conf false) n (sched ++ later)) i)).
+Proof.
+  split.
+  - intros H. specialize (H 2%nat (firstn 9 d60_sched) 0%nat 1%nat 1%nat 0%nat).
+    assert (E : 1%nat = 0%nat); [|discriminate].
+    apply H; [exists 1%nat|exists 0%nat]; vm_compute; reflexivity.
+  - intros H. specialize (H 2%nat (firstn 8 d60_sched) (skipn 8 d60_sched) 0%nat).
+    assert (E : In 0%nat (lmem_of (lrun (d60_conf false) 2 (firstn 8 d60_sched ++ skipn 8 d60_sched)) 1)).
+    { apply (H ltac:(vm_compute; left; reflexivity) 0%nat). exists 1%nat. vm_compute. reflexivity. }
+    vm_compute in E. exact E.
 Qed.
 
 (** CachePending with a positive !cacheTTL: the property overrides TTL Never
@@ -1363,5 +1841,44 @@ Module CacheExamples.
   Example conc_three_as_is :
     let k := conc_run false true 3 [0; 1; 2; 2; 0; 1; 7]%nat in
     all_done k = true /\ k_loads k = 3%nat /\ map cc_got (k_clients k) = [Some 1; Some 2; Some 0]%nat.
+  Proof. vm_compute. repeat split; reflexivity. Qed.
+
+  (** the life of an entry under the counting protocol (TTL 1 ms, two clients) *)
+  Example repaired_conf : lrepaired (d60_conf true).
+  Proof. split; reflexivity. Qed.
+
+  (** the situation of D60: client 0 releases after the TTL while client 1
+      still holds the instance; client 0's next request gets the SAME instance,
+      and its read sees client 1's write *)
+  Definition overlap_sched : list levent :=
+    [LStep 0; LStep 0; LStep 1; LTick 5; LStep 0; LStep 0; LWrite 1; LRead 0]%nat.
+
+  Example overlap_counting :
+    let k := lrun (d60_conf true) 2 overlap_sched in
+    l_clients k = [LHolding 0 0; LHolding 0 0]%nat /\ l_next k = 1%nat /\
+    le_pending (lentry_at k 0) = 2%nat /\ l_store k = [0%nat] /\ lmem_of k 0 = [0%nat] /\
+    l_reads k = [(0%nat, [0%nat], [0%nat])].
+  Proof. vm_compute. repeat split; reflexivity. Qed.
+
+  (** when the last user has released it, the entry (its time is up) leaves the
+      map, and the next Open reloads from storage - with the write *)
+  Example overlap_then_reload :
+    let k := lrun (d60_conf true) 2 (overlap_sched ++ [LStep 0; LStep 1; LStep 1; LStep 1]%nat)%list in
+    l_clients k = [LIdle; LHolding 1 1]%nat /\ l_next k = 2%nat /\ lmem_of k 1 = [0%nat] /\
+    le_pending (lentry_at k 0) = 0%nat /\ le_pending (lentry_at k 1) = 1%nat.
+  Proof. vm_compute. repeat split; reflexivity. Qed.
+
+  (** a failed Open leaves no count and no entry behind *)
+  Example failed_open_leaves_nothing :
+    let k := lrun (d60_conf true) 1 [LStep 0; LFail 0; LStep 0]%nat in
+    l_clients k = [LIdle] /\ l_slot k = None /\ l_next k = 0%nat /\ le_pending (lentry_at k 0) = 0%nat.
+  Proof. vm_compute. repeat split; reflexivity. Qed.
+
+  (** a failed Open while another request waits for the same entry: the
+      waiter loads through that entry, the failed request's Release takes only
+      its own count *)
+  Example failed_open_with_waiter :
+    let k := lrun (d60_conf true) 2 [LStep 0; LStep 1; LFail 0; LStep 1; LTick 9; LStep 0]%nat in
+    l_clients k = [LIdle; LHolding 0 0]%nat /\ l_slot k = Some 0%nat /\ le_pending (lentry_at k 0) = 1%nat.
   Proof. vm_compute. repeat split; reflexivity. Qed.
 End CacheExamples.
